@@ -89,7 +89,7 @@ impl Scenario for Offer {
             return gen_large(rng, tier);
         }
         let mut g = GenCfg::swarm(rng);
-        g.authors = rng.range(1, 3) as u8;
+        g.authors = crate::world::gen_author_count(rng, 3);
         let n = rng.urange(1, tier.pick(10, 16));
         let items: Vec<Ent> = (0..n).map(|_| gen_ent(rng, &g)).collect();
         let backend = match rng.below(10) {
@@ -311,7 +311,7 @@ fn gen_large(rng: &mut Rng, tier: Tier) -> OfferPlan {
 }
 
 fn gen_heads(rng: &mut Rng, g: &GenCfg) -> Vec<(u8, u64)> {
-    let n = rng.urange(0, 3);
+    let n = if g.authors > 4 { rng.urange(0, g.authors as usize + 1) } else { rng.urange(0, 3) };
     (0..n).map(|_| (rng.below(g.authors as u64 + 1) as u8, rng.range(0, g.ts_values + 1))).collect()
 }
 
